@@ -407,6 +407,67 @@ fn fault_case(lin: bool, r: f64, trip: usize) -> Option<Bad> {
     None
 }
 
+/// A cloneable interpolator (the stock ones do not implement Clone): holds the newest source frame.
+#[derive(Clone)]
+struct Hold(f64);
+impl Interpolator for Hold {
+    type Frame = f64;
+    fn interpolate(&self, _x: f64) -> f64 {
+        self.0
+    }
+    fn next_source_frame(&mut self, f: f64) {
+        self.0 = f;
+    }
+    fn reset(&mut self) {
+        self.0 = 0.0;
+    }
+}
+
+/// Clone mid-history: after k outputs the converter is replaced by its copy -- taken through
+/// clone() or through clone_from() into a copy made at the start -- which must go on exactly
+/// like the original (outputs, frames pulled, exhaustion), for constant and per-frame ratios.
+fn clone_case(r: f64, k: usize, via_clone_from: bool, mul: bool) -> Option<Bad> {
+    let frames: Vec<f64> = (0..40).map(|n| (n + 1) as f64).collect();
+    let ctl: Vec<f64> = (0..24).map(|n| [r, 1.0, 2.0 * r, 0.5][n % 4]).collect();
+    let run = |swap: bool| -> Vec<(u64, usize, bool)> {
+        let (p, c) = Probe::new(frames.clone());
+        let mut out = Vec::new();
+        macro_rules! drive {
+            ($conv:expr) => {{
+                let mut conv = $conv;
+                let mut early = conv.clone();
+                for n in 0..24 {
+                    if swap && n == k {
+                        if via_clone_from {
+                            early.clone_from(&conv);
+                            conv = early.clone();
+                        } else {
+                            let c2 = conv.clone();
+                            conv = c2;
+                        }
+                    }
+                    let f = conv.next();
+                    out.push((f.to_bits(), c.pulls(), conv.is_exhausted()));
+                }
+            }};
+        }
+        if mul {
+            let (m, _) = Probe::new(ctl.clone());
+            drive!(p.mul_hz(Hold(0.0), m));
+        } else {
+            drive!(Converter::scale_playback_hz(p, Hold(0.0), r));
+        }
+        out
+    };
+    let (a, b) = (run(false), run(true));
+    for n in 0..a.len() {
+        if a[n] != b[n] {
+            return Some(("conv.clone".into(), format!("{} ratio {r}: converter replaced by its copy (through {}) after {k} outputs: output {n} = {} with {} frames pulled and is_exhausted() = {}, the original gives {} / {} / {}", if mul { "mul_hz" } else { "scale_playback_hz" }, if via_clone_from { "clone_from into an early copy" } else { "clone" }, f64::from_bits(b[n].0), b[n].1, b[n].2, f64::from_bits(a[n].0), a[n].1, a[n].2)));
+        }
+    }
+    None
+}
+
 /// long run on an infinite ramp: pulls and linear blend with the tolerant oracle
 fn long_run(r: f64, outputs: usize) -> Option<Bad> {
     let (mut g, c) = Gen::new(|n| (n % 1024) as f64 / 1024.0);
@@ -442,6 +503,9 @@ fn main() {
     let ctx = Ctx::new("C08", "release");
     if let Some(v) = ctx.replay_case() {
         let _guard_scope = guard::scoped(&v.to_string());
+        if v["sys"] == "conv_clone" {
+            ctx.finish_replay(clone_case(bits(&v["r"]), v["k"].as_u64().unwrap_or(0) as usize, v["via_clone_from"] == true, v["mul"] == true).map(|e| format!("{}: {}", e.0, e.1)));
+        }
         if v["sys"] == "conv_fault" {
             ctx.finish_replay(fault_case(v["lin"] == true, bits(&v["r"]), v["trip"].as_u64().unwrap_or(0) as usize).map(|e| format!("{}: {}", e.0, e.1)));
         }
@@ -552,6 +616,26 @@ fn main() {
         }
         guard::leave();
     });
+    // clone mid-history
+    let mut clone_n = 0u64;
+    for r in [0.25f64, 0.3, 0.5, 1.0, 1.5, 2.0, 2.75] {
+        for k in 0..16usize {
+            for via in [false, true] {
+                for mul in [false, true] {
+                    let case = json!({"sys":"conv_clone","r":r.to_bits().to_string(),"k":k,"via_clone_from":via,"mul":mul});
+                    let _guard_scope = guard::scoped(&case.to_string());
+                    clone_n += 1;
+                    match catch(|| clone_case(r, k, via, mul)) {
+                        Ok(None) => {}
+                        Ok(Some((key, m))) => ctx.violation(&key, case, m, Some(&|| clone_case(r, k, via, mul).map(|e| e.1))),
+                        Err(p) => ctx.violation("conv.panic", case, format!("clone case panicked: {p}"), None),
+                    }
+                }
+            }
+        }
+    }
+    ctx.add_evals(clone_n * 24);
+    ctx.rule("clone mid-history: converter (constant ratio) and mul_hz (per-frame ratio) over a cloneable interpolator x 7 ratios x replaced after 0..16 outputs by its clone() or by clone_from() into a copy made at the start: 24 outputs, frames pulled and exhaustion flags equal those of the run without the replacement");
     // unwinding: a source that fails once, caught by the caller
     let mut fault_n = 0u64;
     for lin in [false, true] {
